@@ -41,7 +41,16 @@ static std::string fuzz_boundary(Ctx &c) {
 
 static void prop(Ctx &c) {
     gen::ZFileOpts o; o.max_chunks = 8; o.max_chunk = 200; o.allow_empty = false;
-    gen::ZFile B = gen::zfile(c, o); size_t n = B.nchunks();
+    gen::ZFile B = gen::zfile(c, o);
+    // an index that lists an EMPTY chunk (no stored bytes, size 0) somewhere behind the dictionary, with an arbitrary checksum: nothing a
+    // writer produces, but a parsed target all the same.  Such a chunk can never hold bytes that match a non-zero checksum.
+    if (c.gver >= 4 && c.rarely(4)) {
+        ref::Header h2 = B.h; ref::Entry e; int cds = ref::digest_size(h2.chunk_hash_type); e.comp_len = 0; e.len = 0; e.digest = c.rarely(3) ? Bytes(cds, 0) : c.bytes(cds); e.udigest = (h2.flags & 4) ? e.digest : Bytes();
+        size_t at = 1 + c.draw(h2.entries.size() - 1); h2.entries.insert(h2.entries.begin() + at, e); h2.count = h2.entries.size();
+        Bytes nf = ref::emit_header(h2); nf.insert(nf.end(), B.file.begin() + B.h.total_size, B.file.end()); ref::ParseResult p2 = ref::parse(nf);
+        if (p2.ok) { B.file = nf; B.h = p2.h; B.desc += " +empty-chunk-entry@" + std::to_string(at); c.label("empty-chunk-in-index"); }
+    }
+    size_t n = B.nchunks();
     Bytes T0 = B.file; std::string pat;
     for (size_t i = 0; i < n; i++) { size_t off = B.off(i), cl = B.clen(i); if (!cl) { pat += "+"; continue; } if (c.boolean()) { pat += "+"; continue; } pat += "0"; std::fill(T0.begin() + off, T0.begin() + off + cl, (uint8_t)0x11); }
     static const int lims[] = {-1, 1, 2, 3, 7}; int limit = lims[c.pick(5)];
@@ -64,7 +73,8 @@ static void prop(Ctx &c) {
     dl::Response good; if (!range_str.empty()) good = srv.respond(range_str);
     std::vector<std::string> hl; Bytes body; std::ostringstream rd;
     uint64_t hmode = c.draw(3);
-    if (hmode == 0) { hl = good.header_lines; rd << "headers=correct "; }
+    if (hmode == 0) { hl = good.header_lines; rd << "headers=correct ";
+        if (c.gver >= 4 && c.rarely(4)) { std::vector<std::string> h2; for (auto &l : hl) { if (l.size() >= 2) { size_t cut = 1 + c.draw(std::min<size_t>(l.size() - 2, 20)); h2.push_back(l.substr(0, cut)); h2.push_back(l.substr(cut)); } else h2.push_back(l); } hl = h2; rd << "(every line in two pieces) "; c.label("header-line-in-pieces"); } }
     else {
         size_t nl = 1 + c.draw(4); rd << "headers=";
         for (size_t i = 0; i < nl; i++) {
@@ -73,6 +83,8 @@ static void prop(Ctx &c) {
             else { std::string bd = k == 1 ? srv.style.boundary : fuzz_boundary(c); static const char *pre[] = {"Content-Type: multipart/byteranges; boundary=", "content-type:multipart/byteranges;boundary = ", "X: y; BOUNDARY=", "boundary=", "Content-Type: multipart/byteranges; charset=x; boundary="};
                    line = std::string(pre[c.pick(5)]) + bd; rd << "boundary[" << bd.size() << "] "; }
             uint64_t t = c.draw(5); line += t == 0 ? "\n" : t == 1 ? "" : t == 2 ? " \r\n" : "\r\n";
+            // a header line that arrives in pieces (or is cut off): every piece is a callback invocation of its own
+            if (c.gver >= 4 && c.rarely(3) && line.size() >= 2) { size_t cut = 1 + c.draw(std::min<size_t>(line.size() - 2, c.boolean() ? 14 : 80)); hl.push_back(line.substr(0, cut)); if (c.boolean()) hl.push_back(line.substr(cut)); rd << "(line cut at " << cut << ") "; c.label("header-line-in-pieces"); continue; }
             hl.push_back(line);
         }
     }
@@ -110,15 +122,15 @@ static void prop(Ctx &c) {
     bool accepted;
     if (!late_line.empty()) {
         accepted = true; size_t k = 0; bool stop = false;
-        for (auto &l : resp.header_lines) { std::string t = l; if (zck_header_cb((char *)t.data(), 1, t.size(), d) != t.size()) { accepted = false; if (clear_continue) (void)!zck_clear_error(z); else { stop = true; break; } } }
+        for (auto &l : resp.header_lines) { if (!dl::header_line(d, l)) { accepted = false; if (clear_continue) (void)!zck_clear_error(z); else { stop = true; break; } } }
         for (auto &f : dl::fragments(resp.body.size(), cuts)) { if (stop) break;
-            if (k++ == late_after) { std::string t = late_line; if (zck_header_cb((char *)t.data(), 1, t.size(), d) != t.size()) { accepted = false; if (clear_continue) (void)!zck_clear_error(z); else break; } }
+            if (k++ == late_after) { if (!dl::header_line(d, late_line)) { accepted = false; if (clear_continue) (void)!zck_clear_error(z); else break; } }
             Bytes tmp(resp.body.begin() + f.first, resp.body.begin() + f.first + f.second);
             if (zck_write_chunk_cb(tmp.data(), 1, tmp.size(), d) != tmp.size()) { accepted = false; if (clear_continue) (void)!zck_clear_error(z); else break; } }
     } else if (!clear_continue) accepted = dl::deliver(d, resp, cuts, zck_write_chunk_cb, nullptr, false);
     else {
         accepted = true; c.label("clear-error-and-continue");
-        for (auto &l : resp.header_lines) { std::string t = l; if (zck_header_cb((char *)t.data(), 1, t.size(), d) != t.size()) { accepted = false; (void)!zck_clear_error(z); } }
+        for (auto &l : resp.header_lines) { if (!dl::header_line(d, l)) { accepted = false; (void)!zck_clear_error(z); } }
         for (auto &f : dl::fragments(resp.body.size(), cuts)) { Bytes tmp(resp.body.begin() + f.first, resp.body.begin() + f.first + f.second);
             if (zck_write_chunk_cb(tmp.data(), 1, tmp.size(), d) != tmp.size()) { accepted = false; (void)!zck_clear_error(z); } }
     }
@@ -141,6 +153,7 @@ static void prop(Ctx &c) {
     Bytes T1 = lib::fd_bytes(fd); std::string fsig, fmsg; size_t i = 0;
     for (zckChunk *ch = z->index.first; ch; ch = ch->next, i++) {
         size_t off = B.off(i), cl = B.clen(i);
+        if (ch->valid == 1 && !cl && i > 0 && B.h.entries[i].digest != Bytes(B.h.entries[i].digest.size(), 0) && B.h.entries[i].digest != ref::digest((int)B.h.chunk_hash_type, T1.data(), 0)) { fsig = "valid-with-wrong-bytes"; fmsg = "empty chunk " + std::to_string(i) + " is marked valid although no bytes can hash to its (non-zero) index checksum"; break; }
         if (ch->valid == 1 && cl && (T1.size() < off + cl || ref::digest((int)B.h.chunk_hash_type, T1.data() + off, cl) != B.h.entries[i].digest)) { fsig = "valid-with-wrong-bytes"; fmsg = "chunk " + std::to_string(i) + " is marked valid but its bytes do not hash to its index checksum"; break; }
     }
     auto in_request = [&](size_t pos) { for (auto &x : rq) if (pos >= x.s && pos <= x.e) return true; return false; };
